@@ -197,11 +197,66 @@ def differential(run, t):
                     run.failure("differential/ROUTES", f"{os.path.basename(b)} sections={secs}: binary route and objdump-text route differ in {mode.name}", {"kind": "diff", "binary": b, "sections": secs})
 
 
+def rewritten_binary(run):
+    """the binary at one path is replaced (same size, same mtime) between two matches in one process, and an archive /
+    non-ELF object is given: the binary route must follow what objdump prints for the CURRENT file"""
+    import shutil
+
+    import yaml
+    from vlib import jasmapi
+    from jasm.global_definitions import InputFileType, MatchConfig, MatchingReturnMode, MatchingSearchMode
+    from jasm.match import MasterOfPuppets
+
+    if not (shutil.which("objcopy") and shutil.which("objdump")):
+        run.inconc("objcopy/objdump not available: rewritten-binary probe skipped")
+        return
+    with jasmapi.scratch() as d:
+        rp = os.path.join(d, "r.yaml")
+        open(rp, "w").write(yaml.safe_dump({"pattern": ["ret"]}, sort_keys=False))
+        obj = os.path.join(d, "prog.o")
+
+        def build(code, path):
+            raw = os.path.join(d, "raw.bin")
+            open(raw, "wb").write(code)
+            subprocess.run(["objcopy", "-I", "binary", "-O", "elf64-x86-64", "-B", "i386:x86-64", "--rename-section", ".data=.text,code,alloc,load,readonly", raw, path], check=True, capture_output=True)
+
+        def both(path):
+            txt = subprocess.run(["objdump", "-d", "-M", "att", path], capture_output=True, text=True).stdout
+            ap = os.path.join(d, "cur.s")
+            open(ap, "w").write(txt)
+            b = MasterOfPuppets(MatchConfig(rp, path, InputFileType.binary, False, MatchingReturnMode.all_instructions_string, MatchingSearchMode.all_finds)).perform_matching()
+            a = MasterOfPuppets(MatchConfig(rp, ap, InputFileType.assembly, False, MatchingReturnMode.all_instructions_string, MatchingSearchMode.all_finds)).perform_matching()
+            return b, a
+
+        try:
+            build(bytes.fromhex("554889e55dc3"), obj)
+            st = os.stat(obj)
+            r1 = both(obj)
+            build(bytes.fromhex("904831c090c3"), obj)
+            os.utime(obj, (st.st_atime, st.st_mtime))
+            r2 = both(obj)
+            # a static library (ar archive) of the first object: objdump disassembles its member
+            lib = os.path.join(d, "libp.a")
+            build(bytes.fromhex("554889e55dc3"), os.path.join(d, "m.o"))
+            have_ar = shutil.which("ar") and subprocess.run(["ar", "rcs", lib, os.path.join(d, "m.o")], capture_output=True).returncode == 0
+            r3 = both(lib) if have_ar else None
+        except Exception as e:
+            run.inconc(f"rewritten-binary probe: {type(e).__name__}: {e}")
+            return
+        for nm, r in (("first", r1), ("rewritten_same_size_same_mtime", r2), ("ar_archive", r3)):
+            if r is None:
+                continue
+            run.count("traces_validated_against_impl")
+            if r[0] != r[1] or not r[1]:
+                run.failure(f"differential/{nm}", f"{nm}: binary route gives {r[0][:120]!r}, the objdump text of the current file gives {r[1][:120]!r}", {"kind": "diff", "binary": nm, "sections": None})
+
+
 def main():
     run = Run("C15", "model_checking", "CH")
     hs = harnesses(tier())
     ch.run_harnesses(run, hs)
     differential(run, tier())
+    rewritten_binary(run)
     cov = {
         "states": len(hs),
         "transitions": run.counts.get("harness_runs", 0),
